@@ -12,7 +12,7 @@ use serde_json::{json, Value};
 pub static ENGINE: Engine = Engine {
     prop: "C01",
     level: "model_checking",
-    rule: "S: state-space closure through the real evaluator (ParsedFormula::eval on one syntax node over Subtree operands): states = all Boolean functions over k named variables with non-adjacent ids (k=2: 16, k=3: 256), BFS from {true,false,variables} under Not and the 8 binary operators until a round adds nothing, then EVERY node kind (Not, 8 BinaryOps, Ite, Exists/Forall x every variable list <= 3 incl. repeats and an outside variable, 5 counting operators x constants 0..L+1 x every operand list <= L, 5 list-vs-list comparisons) on EVERY operand tuple; oracle = truth table. E: every AST with <= N nodes over the full alphabet (5 leaves, not, 8 binary, if, 6 quantifier heads, lfp/gfp, 5 comparisons x {0,1,2} and list-vs-list, lists <= 3), printed with minimal and with full parentheses, every alias spelling (all combinations for <= 2 nodes), parsed and evaluated by the real code, truth table by variable NAME vs the reference denotation; three deeper strata in thorough; second observation point `rsbdd -t`. distinct = distinct (node kind, operands) + distinct formula texts",
+    rule: "S: state-space closure through the real evaluator (ParsedFormula::eval on one syntax node over Subtree operands): states = all Boolean functions over k named variables with non-adjacent ids (k=2: 16, k=3: 256), BFS from {true,false,variables} under Not and the 8 binary operators until a round adds nothing, then EVERY node kind (Not, 8 BinaryOps, Ite, Exists/Forall x every variable list <= 3 incl. repeats and an outside variable, 5 counting operators x constants 0..L+1 x every operand list <= L, 5 list-vs-list comparisons) on EVERY operand tuple; oracle = truth table. E: every AST with <= N nodes over the full alphabet (5 leaves, not, 8 binary, if, 6 quantifier heads, lfp/gfp, 5 comparisons x {0,1,2} and list-vs-list, lists <= 3), printed with minimal and with full parentheses, every alias spelling (all combinations for <= 2 nodes), parsed and evaluated by the real code, truth table by variable NAME vs the reference denotation; three deeper strata; a structured deep family (chains to depth 40 over six names, quantifier / if / fixed-point towers, counting lists of 5..9 operands); second observation point `rsbdd -t`. distinct = distinct (node kind, operands) + distinct formula texts",
     assumptions: &["reference semantics in harness/src/refl.rs (truth tables, fixed points by iteration with cycle detection)", "fixed points whose reference iteration does not converge are out of scope and counted", "k <= 3 variables in S, <= 6 names in E; AST size bounds as reported"],
     max_shards: 64,
     run,
@@ -124,6 +124,79 @@ fn check_cli_table(ctx: &mut Ctx, a: &Ast, text: &str) {
     }
 }
 
+
+/// deeper nesting than the enumerations reach: right- and left-nested chains over six names
+/// to depth 40 with the operators cycling from every offset, quantifier towers, if-towers
+/// and counting lists of up to 9 operands
+fn deep_family(ctx: &mut Ctx) {
+    let names = ["a", "b", "c", "d", "e", "f"];
+    let term = |i: usize| if i % 7 == 3 { Ast::not(Ast::var(names[i % 6])) } else { Ast::var(names[i % 6]) };
+    let mut idx = 0u64;
+    let mut go = |ctx: &mut Ctx, a: Ast| {
+        idx += 1;
+        if !ctx.mine(idx) {
+            return;
+        }
+        for st in [refl::MINIMAL, refl::FULL] {
+            let text = refl::pp(&a, st);
+            if refl::parse(&text).as_ref() != Ok(&a) {
+                panic!("machinery: round trip failed for {text}");
+            }
+            if check_text(ctx, TAG, &a, &text).is_some() {
+                ctx.distinct(&text);
+                ctx.count("deep_family_texts", 1);
+            }
+        }
+    };
+    for depth in 1..=40usize {
+        for off in 0..8usize {
+            // right-nested: t0 op (t1 op (t2 ...))
+            let mut r = term(depth + off);
+            for i in (0..depth).rev() {
+                r = Ast::bin(ALL_BINS[(i + off) % 8], term(i + off), r);
+            }
+            go(ctx, r);
+            // left-nested: ((t0 op t1) op t2) ...
+            let mut l = term(off);
+            for i in 0..depth {
+                l = Ast::bin(ALL_BINS[(i + off) % 8], l, term(i + off + 1));
+            }
+            go(ctx, l);
+        }
+    }
+    for depth in 1..=12usize {
+        // quantifier tower over a fixed 6-variable body
+        let mut body = Ast::bin(Bin::Xor, Ast::bin(Bin::And, Ast::var("a"), Ast::var("b")), Ast::bin(Bin::Or, Ast::var("c"), Ast::bin(Bin::Iff, Ast::var("d"), Ast::bin(Bin::Implies, Ast::var("e"), Ast::var("f")))));
+        for i in 0..depth {
+            body = Ast::q(i % 2 == 0, &[names[(i * 5) % 6]], body);
+        }
+        go(ctx, body);
+        // if-tower
+        let mut t = Ast::var("f");
+        for i in 0..depth {
+            t = if i % 2 == 0 { Ast::ite(term(i), t, term(i + 2)) } else { Ast::ite(term(i), term(i + 1), t) };
+        }
+        go(ctx, t);
+        // nested negations and fixed points
+        let mut n = Ast::bin(Bin::Or, Ast::var("X"), Ast::var("a"));
+        for i in 0..depth.min(8) {
+            n = if i % 2 == 0 { Ast::not(Ast::not(n)) } else { Ast::bin(Bin::And, n, Ast::bin(Bin::Or, Ast::var("X"), term(i))) };
+        }
+        go(ctx, Ast::fp("X", false, n));
+    }
+    for len in 5..=9usize {
+        for off in 0..6usize {
+            let l: Vec<Ast> = (0..len).map(|i| term(i * 5 + off)).collect();
+            for op in ALL_CMPS {
+                for n in [0usize, 1, len / 2, len - 1, len] {
+                    go(ctx, Ast::CC(op, l.clone(), n.to_string()));
+                }
+                go(ctx, Ast::CV(op, l[..len / 2].to_vec(), l[len / 2..].to_vec()));
+            }
+        }
+    }
+}
+
 fn extreme_constants(ctx: &mut Ctx) {
     let consts = ["9223372036854775806", "9223372036854775807", "9223372036854775808", "18446744073709551615", "18446744073709551616", "99999999999999999999999999"];
     let lists: Vec<Vec<Ast>> = vec![vec![], vec![Ast::var("a")], vec![Ast::var("a"), Ast::var("b")], vec![Ast::var("a"), Ast::not(Ast::var("a"))]];
@@ -211,6 +284,7 @@ fn run(ctx: &mut Ctx) {
         stream_stratum(ctx, connective_core(), 5, 5, &mut idx, "asts_connective_core", 0, 0, 99);
         stream_stratum(ctx, binder_core(), 1, 5, &mut idx, "asts_binder_core", 0, 0, 5);
     }
+    deep_family(ctx);
     extreme_constants(ctx);
     crate::cli::cleanup_scratch();
 }
